@@ -143,8 +143,10 @@ fn session_td_diamond() { prog_diamond(); history_td(0, 4, true, expect_diamond)
 
 // ---- bottom-up ----------------------------------------------------------------------------------------------------------
 // (not registered: bottom-up execution of a task taken from the store does not get through symbolic execution, DESIGN §2/§6)
-#[allow(dead_code)]
-fn session_bu_chain() { prog_chain(); history_bu(0, &[1], 5); }
+//@h props=PROBE tier=thorough unwind=14 stubs=sort,boxslice timeout=1500 fieldsens=1024
+fn session_bu_single_task() { unsafe { PROG = [[E; NINS]; NTASK]; PROG[0] = [Ins::Read(1, M_EXACT), E, E, E]; } history_bu(0, &[], 3); }
+//@h props=PROBE tier=thorough unwind=14 stubs=sort,boxslice timeout=1500 fieldsens=1024
+fn session_bu_chain() { prog_chain(); history_bu(0, &[1], 3); }
 // (not registered: bottom-up execution of a task taken from the store does not get through symbolic execution, DESIGN §2/§6)
 #[allow(dead_code)]
 fn session_bu_generated_resource() { prog_generated(); history_bu(0, &[1], 5); }
@@ -279,7 +281,7 @@ fn session_event_stream_of_leaf_builds() {
 
 /// Two roots sharing a dependency, built in separate sessions: P0 and P1 both require P2 (reads Cell1). After a change, P0 is
 /// rebuilt first (which re-executes P2), then P1 in a later session must still notice that P2's output changed.
-//@h props=C01,C02:t tier=quick unwind=14 stubs=sort,boxslice timeout=1500 fieldsens=1024
+//@h props=C01,C09,C02:t tier=quick unwind=14 stubs=sort,boxslice timeout=1500 fieldsens=1024
 fn session_td_two_roots_share_a_dependency() {
   unsafe { PROG = [[E; NINS]; NTASK]; PROG[0] = [Ins::Req(2, 0), Ins::Read(0, M_EXACT), E, E]; PROG[1] = [Ins::Req(2, 0), Ins::Set(0), Ins::Req(2, 0), E]; PROG[2] = [Ins::Read(1, M_EXACT), E, E, E]; }
   let mut pie = fresh();
@@ -352,3 +354,250 @@ fn history_td_two_changes(root: u8, first: [u8; 3], second: [u8; 3]) {
 fn session_td_chain_two_changes() { prog_chain(); history_td_two_changes(0, [2, 1, 3], [0, 3, 6]); }
 //@h props=C01:t,C08:t tier=thorough unwind=14 stubs=sort,boxslice timeout=2400 fieldsens=1024
 fn session_td_dynamic_two_changes() { prog_dynamic(); history_td_two_changes(0, [1, 2, 5], [6, 4, 5]); }
+
+// ---- C20: tasks that change roles between states ----------------------------------------------------------------------------
+// All programs below are well-formed: in EVERY state a from-scratch build of all their tasks is free of cycles, hidden
+// dependencies and overlapping writes. Which task writes Cell2 / reads Cell2 / requires which other task depends on the
+// parity of Cell0. After Read(0, exact) the accumulator is Cell0 + 2, so `EndIfOdd` / `EndIfEven` select on Cell0's parity.
+// INIT has Cell0 = 4 (even). Any abort of pie in the harnesses without the `kf_` prefix is a C20 violation; the `kf_`
+// harnesses are the role-inversion histories in which pie (genuinely) aborts although no violation exists in the current
+// state: they are recorded in known_findings.json and reported as KNOWN-FINDING, keyed by harness and panic message.
+
+/// Writer role: P1 writes Cell2 while Cell0 is even, P2 writes it while Cell0 is odd. P0 requires P1, P2, then reads Cell2;
+/// P3 does the same in the other order.
+fn prog_writer_role() { unsafe {
+  PROG = [[E; NINS]; NTASK];
+  PROG[1] = [Ins::Read(0, M_EXACT), Ins::EndIfOdd, Ins::Write(2, M_EXACT, 1), E];
+  PROG[2] = [Ins::Read(0, M_EXACT), Ins::EndIfEven, Ins::Write(2, M_EXACT, 2), E];
+  PROG[0] = [Ins::Req(1, 0), Ins::Req(2, 0), Ins::Read(2, M_EXACT), E];
+  PROG[3] = [Ins::Req(2, 0), Ins::Req(1, 0), Ins::Read(2, M_EXACT), E];
+} }
+/// The old writer (P1) is re-validated before the new writer (P2) writes: P1 re-executes, drops its write edge, then P2 writes.
+//@h props=C20,C06:t,C08:t,C01:t tier=quick unwind=14 stubs=sort,boxslice timeout=1500 fieldsens=1024
+fn session_c20_writer_role_moves() {
+  prog_writer_role();
+  let mut pie = fresh();
+  let mut cells = INIT;
+  td_build(&mut pie, 0, &mut cells, false, true);
+  assert!(cells[2] == Some(7), "harness: P1 (even state) generated Cell2");
+  split(2, |k| {
+    let ch = if k == 0 { 1 } else { 6 };      // Cell0 := 9 (role moves to P2) / Cell0 := 6 (role stays with P1)
+    if let Some((c, v)) = change(ch) { set_cell(&mut pie, c, v); cells[c] = v; }
+    td_build(&mut pie, 0, &mut cells, false, true);
+    assert!(exec_count(1) == 1 && exec_count(2) == 1 && exec_count(0) == 1, "C20/C08 both generators re-validated, the reader re-executed");
+    if ch == 1 { vcover!(true, "c20 writer role moved"); td_build(&mut pie, 0, &mut cells, true, true); }
+  });
+  ::std::mem::forget(pie);
+}
+/// The same role move, but the generators read Cell0 with the failing-mode checker and the checks FAIL (error, not verdict) in
+/// the build after the flip: a task re-executed because a dependency check failed must drop its old edges just like one
+/// re-executed because of an inconsistency (written after seeded change C20-3).
+//@h props=C20,C18:t,C08:t tier=quick unwind=14 stubs=sort,boxslice timeout=1500 fieldsens=1024
+fn session_c20_writer_role_moves_after_check_error() {
+  prog_writer_role();
+  unsafe { PROG[1][0] = Ins::Read(0, M_FAILING); PROG[2][0] = Ins::Read(0, M_FAILING); }
+  let mut pie = fresh();
+  let mut cells = INIT;
+  td_build(&mut pie, 0, &mut cells, false, true);
+  set_cell(&mut pie, 0, Some(9)); cells[0] = Some(9);
+  unsafe { FAULT[0] = true; }
+  td_build(&mut pie, 0, &mut cells, false, true);
+  assert!(exec_count(1) == 1 && exec_count(2) == 1 && exec_count(0) == 1, "C18/C20 both generators re-executed after their checks failed, the reader re-executed");
+  unsafe { FAULT[0] = false; }
+  ::std::mem::forget(pie);
+}
+/// Known finding (role inversion, writer): root P3 visits the NEW writer P2 first; P2 writes Cell2 while the write edge that P1
+/// recorded in the earlier (even) state still exists, and pie aborts with "Overlapping write" although P1 no longer writes.
+//@h props=C20 tier=quick unwind=14 stubs=sort,boxslice timeout=1500 fieldsens=1024 known=C20-KF1
+fn session_c20_kf_new_writer_visited_before_old_writer() {
+  prog_writer_role();
+  let mut pie = fresh();
+  let mut cells = INIT;
+  td_build(&mut pie, 3, &mut cells, false, true);
+  set_cell(&mut pie, 0, Some(9)); cells[0] = Some(9);
+  td_build(&mut pie, 3, &mut cells, false, true);
+  ::std::mem::forget(pie);
+}
+
+/// Require direction: P0 requires P1 while Cell0 is even; P1 requires P0 while Cell0 is odd.
+fn prog_require_direction() { unsafe {
+  PROG = [[E; NINS]; NTASK];
+  PROG[0] = [Ins::Read(0, M_EXACT), Ins::EndIfOdd, Ins::Req(1, 0), E];
+  PROG[1] = [Ins::Read(0, M_EXACT), Ins::EndIfEven, Ins::Req(0, 0), E];
+} }
+/// After the flip the former requirer is built first (it drops its require edge), then the new requirer: no cycle exists.
+/// Flipping back, the order of the two root builds is reversed accordingly.
+//@h props=C20,C07:t,C08:t,C01:t tier=quick unwind=14 stubs=sort,boxslice timeout=1500 fieldsens=1024
+fn session_c20_require_direction_flips() {
+  prog_require_direction();
+  let mut pie = fresh();
+  let mut cells = INIT;
+  td_build(&mut pie, 0, &mut cells, false, true);
+  set_cell(&mut pie, 0, Some(9)); cells[0] = Some(9);           // odd: P1 requires P0
+  td_build(&mut pie, 0, &mut cells, false, true);
+  assert!(exec_count(0) == 1 && exec_count(1) == 0, "C20/C08 P0 re-executes and no longer requires P1");
+  td_build(&mut pie, 1, &mut cells, false, true);
+  assert!(exec_count(1) == 1 && exec_count(0) == 0, "C20 P1 now requires the up-to-date P0");
+  vcover!(true, "c20 require direction flipped");
+  ::std::mem::forget(pie);
+}
+/// Thorough: the direction flips and flips back (the order of the two root builds is reversed accordingly).
+//@h props=C20:t tier=thorough unwind=14 stubs=sort,boxslice timeout=2400 fieldsens=1024
+fn session_c20_require_direction_flips_twice() {
+  prog_require_direction();
+  let mut pie = fresh();
+  let mut cells = INIT;
+  td_build(&mut pie, 0, &mut cells, false, true);
+  td_build(&mut pie, 1, &mut cells, true, true);
+  set_cell(&mut pie, 0, Some(9)); cells[0] = Some(9);
+  td_build(&mut pie, 0, &mut cells, false, true);
+  td_build(&mut pie, 1, &mut cells, false, true);
+  set_cell(&mut pie, 0, Some(6)); cells[0] = Some(6);           // even again: P0 requires P1
+  td_build(&mut pie, 1, &mut cells, false, true);
+  td_build(&mut pie, 0, &mut cells, false, true);
+  assert!(exec_count(0) == 1 && exec_count(1) == 0, "C20 P0 requires the up-to-date P1 again");
+  ::std::mem::forget(pie);
+}
+/// Known finding (role inversion, require direction): after the flip the NEW requirer P1 is built first; its require of P0
+/// meets the edge P0 -> P1 that P0 recorded in the earlier state, and pie aborts with "Cyclic task dependency" although P0
+/// no longer requires P1.
+//@h props=C20 tier=quick unwind=14 stubs=sort,boxslice timeout=1500 fieldsens=1024 known=C20-KF2
+fn session_c20_kf_new_requirer_built_before_old_requirer() {
+  prog_require_direction();
+  let mut pie = fresh();
+  let mut cells = INIT;
+  td_build(&mut pie, 0, &mut cells, false, true);
+  set_cell(&mut pie, 0, Some(9)); cells[0] = Some(9);
+  td_build(&mut pie, 1, &mut cells, false, true);
+  ::std::mem::forget(pie);
+}
+
+/// Reader role: P0 reads Cell2 (as a source) while Cell0 is even; P2 generates Cell2 while Cell0 is odd. P3 requires P0 then P2;
+/// P1 requires them in the other order.
+fn prog_reader_role() { unsafe {
+  PROG = [[E; NINS]; NTASK];
+  PROG[0] = [Ins::Read(0, M_EXACT), Ins::EndIfOdd, Ins::Read(2, M_EXACT), E];
+  PROG[2] = [Ins::Read(0, M_EXACT), Ins::EndIfEven, Ins::Write(2, M_EXACT, 2), E];
+  PROG[3] = [Ins::Req(0, 0), Ins::Req(2, 0), E, E];
+  PROG[1] = [Ins::Req(2, 0), Ins::Req(0, 0), E, E];
+} }
+/// The former reader is re-validated first (drops its read edge), then the new generator writes: no hidden dependency exists.
+//@h props=C20,C05:t,C08:t,C01:t tier=quick unwind=14 stubs=sort,boxslice timeout=1500 fieldsens=1024
+fn session_c20_reader_stops_before_generator_starts() {
+  prog_reader_role();
+  let mut pie = fresh();
+  let mut cells = INIT;
+  td_build(&mut pie, 3, &mut cells, false, true);
+  split(2, |k| {
+    if k == 0 {
+      set_cell(&mut pie, 0, Some(9)); cells[0] = Some(9);
+      td_build(&mut pie, 3, &mut cells, false, true);
+      assert!(exec_count(0) == 1 && exec_count(2) == 1, "C20 reader and generator both re-executed");
+      assert!(cells[2] == Some(11 ^ 2), "harness: P2 generated Cell2 in the odd state");
+      vcover!(true, "c20 reader role dropped before the generator wrote");
+    } else {
+      set_cell(&mut pie, 2, Some(3)); cells[2] = Some(3);           // the source changes while it is still a source
+      td_build(&mut pie, 3, &mut cells, false, true);
+      assert!(exec_count(0) == 1 && exec_count(2) == 0, "C02 only the reader re-executes");
+    }
+  });
+  ::std::mem::forget(pie);
+}
+/// Known finding (role inversion, reader): root P1 visits the new generator P2 first; P2 writes Cell2 while the read edge that
+/// P0 recorded in the earlier state still exists, and pie aborts with "Hidden dependency" although P0 no longer reads Cell2.
+//@h props=C20 tier=quick unwind=14 stubs=sort,boxslice timeout=1500 fieldsens=1024 known=C20-KF3
+fn session_c20_kf_generator_visited_before_former_reader() {
+  prog_reader_role();
+  let mut pie = fresh();
+  let mut cells = INIT;
+  td_build(&mut pie, 1, &mut cells, false, true);
+  set_cell(&mut pie, 0, Some(9)); cells[0] = Some(9);
+  td_build(&mut pie, 1, &mut cells, false, true);
+  ::std::mem::forget(pie);
+}
+
+// ---- C19: sessions after an aborted build -----------------------------------------------------------------------------------
+// Kani models a panic as an abort, so the state an aborted build leaves behind is CONSTRUCTED here: unwinding runs no code of
+// pie (no Drop impls, no catch_unwind in pie/src or graph/src), so what remains is exactly the store content at the abort
+// point: every task that was executing has been `reset_task`ed (no output), carries the dependencies it recorded so far, and
+// each enclosing task ends with the *reserved* require edge to the task it was waiting for. Program: P0 = read Cell0, require
+// P1, read Cell2; P1 = read Cell1. Abort points: in P0 before / after its first read; in P1 before / after its read.
+// Then sessions continue: pie must stay usable (no internal-invariant panic) and return from-scratch results.
+use crate::dependency::{Dependency as VDep, ResourceDependency as VRDep};
+fn prog_c19() { unsafe { PROG = [[E; NINS]; NTASK]; PROG[0] = [Ins::Read(0, M_EXACT), Ins::Req(1, 0), Ins::Read(2, M_EXACT), E]; PROG[1] = [Ins::Read(1, M_EXACT), E, E, E]; } }
+fn leave_aborted_state(pie: &mut Pie<()>, point: u8, cells: &[Option<u8>; NCELL]) {
+  let mut s = pie.new_session();
+  let st = &mut s.0.store;
+  let p0 = st.get_or_create_task_node(&P(0));
+  st.reset_task(&p0);
+  if point >= 1 {
+    let c0 = st.get_or_create_resource_node(&Cell(0));
+    let _ = st.add_dependency(&p0, &c0, VRDep::new(Cell(0), ModeChecker { mode: M_EXACT }, abs(M_EXACT, cells[0])).into_read());
+  }
+  if point >= 2 {
+    let p1 = st.get_or_create_task_node(&P(1));
+    assert!(st.add_dependency(&p0, &p1, VDep::ReservedRequire).is_ok(), "harness: acyclic");
+    st.reset_task(&p1);
+    if point >= 3 {
+      let c1 = st.get_or_create_resource_node(&Cell(1));
+      let _ = st.add_dependency(&p1, &c1, VRDep::new(Cell(1), ModeChecker { mode: M_EXACT }, abs(M_EXACT, cells[1])).into_read());
+    }
+  }
+}
+/// First build ever aborts at `point`; afterwards the cells are unchanged or changed (solver-chosen), and P0 (or first P1) is built.
+//@h props=C19 tier=quick unwind=14 stubs=sort,boxslice timeout=1500 fieldsens=1024
+fn session_c19_first_build_aborted_then_rebuilt() {
+  prog_c19();
+  let mut pie = fresh();
+  let mut cells = INIT;
+  split(4, |point| { split(3, |after| {
+    leave_aborted_state(&mut pie, point, &cells);
+    match after { 1 => { set_cell(&mut pie, 1, Some(9)); cells[1] = Some(9); } 2 => { set_cell(&mut pie, 0, Some(6)); cells[0] = Some(6); } _ => {} }
+    if point >= 2 && after == 2 {
+      // the inner task is built on its own first
+      td_build(&mut pie, 1, &mut cells, false, true);
+      assert!(exec_count(1) == 1, "C19 a task whose execution was aborted is executed as new");
+    }
+    td_build(&mut pie, 0, &mut cells, false, true);
+    assert!(exec_count(0) == 1, "C19 a task whose execution was aborted is executed as new (never reused)");
+    vcover!(point == 3, "c19 abort inside the nested task");
+    td_build(&mut pie, 0, &mut cells, true, true);
+  }); });
+  ::std::mem::forget(pie);
+}
+/// A complete build, then a change, then the re-executing build aborts (inside P1, or inside P0 after it re-required P1);
+/// afterwards the cause is removed or not, and P0 is built again.
+//@h props=C19 tier=quick unwind=14 stubs=sort,boxslice timeout=1500 fieldsens=1024
+fn session_c19_incremental_build_aborted_then_rebuilt() {
+  prog_c19();
+  let mut pie = fresh();
+  let mut cells = INIT;
+  td_build(&mut pie, 0, &mut cells, false, true);
+  split(2, |which| { split(2, |after| {
+    if which == 0 {
+      // Cell1 changed; P0's check reaches P1, P1 is reset and aborts after its read. P0 keeps output and dependencies.
+      set_cell(&mut pie, 1, Some(9)); cells[1] = Some(9);
+      let mut s = pie.new_session();
+      let st = &mut s.0.store;
+      let p1 = st.get_or_create_task_node(&P(1));
+      st.reset_task(&p1);
+      let c1 = st.get_or_create_resource_node(&Cell(1));
+      let _ = st.add_dependency(&p1, &c1, VRDep::new(Cell(1), ModeChecker { mode: M_EXACT }, abs(M_EXACT, cells[1])).into_read());
+    } else {
+      // Cell0 changed; P0 is reset, reads Cell0, reserves the require of P1 and the build aborts while P1 is being checked.
+      set_cell(&mut pie, 0, Some(6)); cells[0] = Some(6);
+      leave_aborted_state(&mut pie, 1, &cells);
+      let mut s = pie.new_session();
+      let st = &mut s.0.store;
+      let p0 = st.get_or_create_task_node(&P(0));
+      let p1 = st.get_or_create_task_node(&P(1));
+      assert!(st.add_dependency(&p0, &p1, VDep::ReservedRequire).is_ok(), "harness: acyclic");
+    }
+    if after == 1 { set_cell(&mut pie, 2, Some(3)); cells[2] = Some(3); }
+    td_build(&mut pie, 0, &mut cells, false, true);
+    assert!(exec_count(0) == 1, "C19 the build after the abort brings the root up to date");
+    assert!(exec_count(1) == if which == 0 { 1 } else { 0 }, "C19 the aborted inner task is executed as new; a completed one is reused");
+    td_build(&mut pie, 0, &mut cells, true, true);
+  }); });
+  ::std::mem::forget(pie);
+}
